@@ -98,6 +98,35 @@ fn heavy_zero_history(kind: usize, delta: f64, backlog: usize, sign: f64) -> (u6
     (40, None)
 }
 
+/// Every weight a deep subnormal (1e-310 .. 3e-310: the total stays below 1e-307, its reciprocal overflows): the aggregates are
+/// still exactly representable to ~13 digits and must survive every merge.
+fn subnormal_history(kind: usize, delta: f64, backlog: usize) -> (u64, Option<(String, String)>) {
+    let mut d = td::Dg::new(kind, delta, backlog);
+    let (mut tw, mut tsum, mut mn, mut mx) = (0.0f64, 0.0f64, f64::INFINITY, f64::NEG_INFINITY);
+    for i in 0..30usize {
+        let v = (1 + (i * 5) % 13) as f64;
+        let w = [1.0, 2.0, 3.0][i % 3] * 1e-310;
+        if let Err(p) = mccore::panics::catch(|| {
+            d.insert_weighted(v, w);
+            if i % 4 == 3 {
+                let _ = d.quantile(0.5);
+            }
+        }) {
+            return (i as u64, Some(("subnormal weights panic".into(), format!("insert_weighted({}, {:e}) (#{}) panicked: {}", v, w, i + 1, p))));
+        }
+        tw += w;
+        tsum += w * v;
+        mn = mn.min(v);
+        mx = mx.max(v);
+        let c = d.clone();
+        let (cnt, sm, empty, lo, hi) = (c.count(), c.sum(), c.is_empty(), c.min(), c.max());
+        if (cnt - tw).abs() > 1e-9 * tw || (sm - tsum).abs() > 1e-9 * tsum || empty || lo != mn || hi != mx {
+            return (i as u64, Some(("subnormal weights".into(), format!("after {} inserts with weights 1e-310 .. 3e-310: count() = {:e} (inserted {:e}), sum() = {:e} (expected {:e}), is_empty() = {}, min / max = {} / {} (expected {} / {})", i + 1, cnt, tw, sm, tsum, empty, lo, hi, mn, mx))));
+        }
+    }
+    (30, None)
+}
+
 fn main() {
     let args = parse_args();
     let mut run = Runner::new("C16", &args.tier, "model_checking");
@@ -135,6 +164,14 @@ fn main() {
         nodes += n;
         if let Some((sig, msg)) = bad {
             run.violation(Viol { property: "C16".into(), signature: format!("tdigest long history {}", sig), message: format!("{}(delta={}) backlog={} weights x{:e}: {}", td::KIND_NAMES[*k], d, b, ws, msg), replay: json!({"structure": "TDigest", "scale_function": td::KIND_NAMES[*k], "delta": d, "max_backlog_size": b, "every_weight_multiplied_by": ws, "history": "i-th op: insert_weighted(v_i, w_i), v_i = ((i*7919)%10007 - 5000)*0.37, w_i = [1, 0.5, 3, 1e-3, 250, 0][i%6]; read every 113 ops; zero weights skipped by the library"}) });
+        }
+    }
+    let sjobs: Vec<(usize, f64, usize)> = (0..4).flat_map(|k| [(k, 1.1, 0usize), (k, 5.0, 2), (k, 100.0, 0)]).collect();
+    let sres = par_map(&sjobs, n_threads(), |&(k, d, b)| subnormal_history(k, d, b));
+    for ((k, d, b), (n, bad)) in sjobs.iter().zip(sres) {
+        nodes += n;
+        if let Some((sig, msg)) = bad {
+            run.violation(Viol { property: "C16".into(), signature: format!("tdigest {}", sig), message: format!("{}(delta={}) backlog={}: {}", td::KIND_NAMES[*k], d, b, msg), replay: json!({"structure": "TDigest", "scale_function": td::KIND_NAMES[*k], "delta": d, "max_backlog_size": b, "history": "i-th op: insert_weighted(1 + 5i mod 13, [1, 2, 3][i mod 3] * 1e-310); quantile(0.5) every 4 ops"}) });
         }
     }
     let hjobs: Vec<(usize, f64, usize, f64)> = (0..4).flat_map(|k| [(k, 1.1, 0usize, 1.0), (k, 2.0, 0, -1.0), (k, 5.0, 3, 1.0), (k, 20.0, 0, -1.0), (k, 20.0, 7, 1.0)]).collect();
